@@ -19,6 +19,12 @@
 namespace {
 
 const uint64_t ENGINE_ID = 19;
+// rare paths whose reach is reported in the evidence (function name substrings; hits = entries by simulated tasks)
+const char* const PROBE_NAMES[] = {"convert_me2_root_modify", "convert_me2_fpi_modify", "flag_no_convergence_me2", "flag_no_convergence_Mu_MassB_MassWB", "flag_tachyon",
+                                   "convert_to_non_tan_beta_resummed", "calculate_lambda_qcd", "set_ckm_from_wolfenstein", "SLHAea::Line::str", "amu2L_F_charged", "amu2L_B_Yuk",
+                                   "reorder_pole_masses", "find_bino_like_neutralino"};
+constexpr int N_PROBES = sizeof(PROBE_NAMES) / sizeof(PROBE_NAMES[0]);
+std::vector<int> g_probe_owner; // probe range -> index into PROBE_NAMES
 constexpr int NSLOTS = 4, NSHARED = 3;
 
 struct CorpusFile { std::string path, type, bytes; };
@@ -466,6 +472,9 @@ int exec_one(const char* planfile, bool trace)
    c.add("tasks_" + std::to_string(o.ntasks));
    if (o.discarded) c.add("discarded_unsupported_sync");
    if (o.sim.preempt_in_op > 0 && o.ntasks >= 2) c.add("runs_with_preemption_inside_operation");
+   for (size_t i = 0; i < o.sim.probe_hits.size() && i < g_probe_owner.size(); ++i)
+      if (o.sim.probe_hits[i]) { c.add(std::string("probe_") + PROBE_NAMES[g_probe_owner[i]], o.sim.probe_hits[i]); }
+   { std::set<int> seen; for (size_t i = 0; i < o.sim.probe_hits.size() && i < g_probe_owner.size(); ++i) if (o.sim.probe_hits[i] && seen.insert(g_probe_owner[i]).second) c.add(std::string("proberuns_") + PROBE_NAMES[g_probe_owner[i]]); }
    for (auto& kv : c.c) std::printf("K %s %" PRIu64 "\n", kv.first.c_str(), kv.second);
    for (auto& kv : o.cover) std::printf("C %s %" PRIu64 "\n", kv.first.c_str(), kv.second);
    std::printf("H %016" PRIx64 " %016" PRIx64 " %d\n", o.hash, o.sim.interleave_hash, (o.sim.preempt_in_op > 0 && o.ntasks >= 2) ? 1 : 0);
@@ -553,7 +562,29 @@ int main(int argc, char** argv)
    struct NullBuf : std::streambuf { int_type overflow(int_type c) override { return traits_type::not_eof(c); } std::streamsize xsputn(const char*, std::streamsize n) override { return n; } };
    static NullBuf nullbuf;
    std::cerr.rdbuf(&nullbuf);
-   if (argc > 4 && std::string(argv[3]) == "--exec-one") return exec_one(argv[4], argc > 5 && std::string(argv[5]) == "--trace");
+   if (argc > 4 && std::string(argv[3]) == "--exec-one") {
+      // probe address ranges come from the persistent worker (the binary is not position independent)
+      if (const char* e = getenv("THRSIM_PROBES")) {
+         std::vector<std::pair<uintptr_t, uintptr_t>> ranges;
+         for (auto& tok : sim::split(e)) {
+            unsigned long long lo = 0, hi = 0; int owner = 0;
+            if (std::sscanf(tok.c_str(), "%llx:%llx:%d", &lo, &hi, &owner) == 3) { ranges.push_back({(uintptr_t)lo, (uintptr_t)hi}); g_probe_owner.push_back(owner); }
+         }
+         thrsim::set_probes(ranges);
+      }
+      return exec_one(argv[4], argc > 5 && std::string(argv[5]) == "--trace");
+   }
+   {
+      std::string env;
+      int n = 0;
+      for (int i = 0; i < N_PROBES; ++i)
+         for (auto& r : thrsim::find_functions(PROBE_NAMES[i])) {
+            if (n++ >= 32) break;
+            char b[96]; std::snprintf(b, sizeof b, "%llx:%llx:%d ", (unsigned long long)r.first, (unsigned long long)r.second, i);
+            env += b;
+         }
+      setenv("THRSIM_PROBES", env.c_str(), 1);
+   }
    if (argc < 3) { std::fprintf(stderr, "usage: thrsim <progress file> <corpus manifest>\n"); return 2; }
 
    FILE* ihf = nullptr;
